@@ -402,6 +402,22 @@ type readResult struct {
 	skipped bool
 }
 
+// scribble: the caller owns its buffer again after Read returned and overwrites it — every byte of
+// the last 70 000 (what a decoder could still want as history) and a sparse sample of the rest.
+func scribble(b []byte) {
+	n := len(b)
+	dense := n - 70000
+	if dense < 0 {
+		dense = 0
+	}
+	for j := 0; j < dense; j += 1 + dense/64 {
+		b[j] ^= 0x5A
+	}
+	for j := dense; j < n; j++ {
+		b[j] ^= 0x5A
+	}
+}
+
 // read buffers are checked out of a cache and returned on normal completion only, so a call
 // that the watchdog gave up on never shares a buffer with later calls
 var (
@@ -484,9 +500,7 @@ func readBack1(src io.Reader, p readPattern, limit int) (res readResult) {
 		out = append(out, buf[:n]...)
 		// the caller owns its buffer again: scribble over it so that a Reader which kept a
 		// reference to it (instead of a copy) decodes garbage
-		for j := 0; j < n; j += 1 + n/64 {
-			buf[j] ^= 0x5A
-		}
+		scribble(buf[:n])
 		if err != nil {
 			res.out, res.err, res.clean = out, err, err == io.EOF
 			return
